@@ -523,10 +523,13 @@ def emit_hist_file(pairs) -> str:
             "Eval vm_compute in hist_violations cases.\n")
 
 
-def judge_histories(ctx: Ctx, cases, tag, per=10, record=True):
+def judge_histories(ctx: Ctx, cases, tag, per=10, record=True, alone=False):
     """Run histories on the implementation, compare with the model and judge them, both inside Coq.
-    Returns (mismatching [(case, obs)], violating [(case, obs, op index)], all pairs)."""
-    obs = core.run_driver(ctx, "c16", cases)
+    Returns (mismatching [(case, obs)], violating [(case, obs, op index)], all pairs).
+    alone: every history in a fresh process of its own (nothing left over from other cases)."""
+    if not cases:
+        return [], [], []
+    obs = core.run_driver(ctx, "c16", cases, workers=8, chunk=1) if alone else core.run_driver(ctx, "c16", cases)
     pairs = []
     for c, o in zip(cases, obs):
         if "trace" not in o or len(o["trace"]) != len(c["ops"]):
@@ -575,7 +578,7 @@ def shrink_history(ctx: Ctx, c, obs, i):
         cands = [dict(cur, ops=cur["ops"][:j] + cur["ops"][j + 1:]) for j in range(m - 1)]
         if not cands:
             break
-        _, viol, _ = judge_histories(ctx, cands, f"shrink{rnd}", per=12, record=False)
+        _, viol, _ = judge_histories(ctx, cands, f"shrink{rnd}", per=12, record=False, alone=True)
         hit = next(((cc, oo) for cc, oo, k in viol if k == len(cc["ops"]) - 1), None)
         if hit is None:
             break
@@ -615,11 +618,27 @@ def hist_to_violation(c, obs, i) -> Violation:
 def run_histories(ctx: Ctx, hs, tag="h"):
     """Correspondence + specification over histories; appends violations / broken obligations."""
     mism, viol, pairs = judge_histories(ctx, hs, tag)
-    for k, (c, o, i) in enumerate(viol):
-        if k < 3:
-            c, o = shrink_history(ctx, c, o, i)
-            i = len(c["ops"]) - 1
-        ctx.violations.append(hist_to_violation(c, o, i))
+    if viol:
+        # a replay must fail by itself: run the violating histories again, each alone in a fresh process (the histories of
+        # a run share worker processes, and a converter may keep something at module level); shrink what reproduces
+        cand = [dict(c, ops=c["ops"][:i + 1]) for c, _, i in viol[:12]]
+        _, again, _ = judge_histories(ctx, cand, tag + "_alone", per=12, record=False, alone=True)
+        done = []
+        for k, (c, o, i) in enumerate(again):
+            if k < 3:
+                c, o = shrink_history(ctx, c, o, i)
+                i = len(c["ops"]) - 1
+            v = hist_to_violation(c, o, i)
+            mark_alone(v, True)
+            done.append(v)
+        ctx.violations += done
+        confirmed = {json.dumps(c["ops"], sort_keys=True) for c, _, _ in again}
+        for k, (c, o, i) in enumerate(viol):
+            if json.dumps(c["ops"][:i + 1], sort_keys=True) not in confirmed:
+                v = hist_to_violation(dict(c, ops=c["ops"][:i + 1]), dict(trace=o["trace"][:i + 1]), i)
+                if k < 12:
+                    mark_alone(v, False)
+                ctx.violations.append(v)
     for c, o in mism:
         ctx.broken.append(Broken("correspondence", "Model/AdcHist.v vs implementation (history on one detector)",
                                  f"model and implementation differ on a history of {len(c['ops'])} operations",
@@ -822,40 +841,70 @@ def order_violations(ctx: Ctx):
     ctx.violations[:] = first + rest
 
 
-def confirm_in_isolation(ctx: Ctx, limit=16):
+NOT_ALONE = (" [observed in the run, but NOT reproduced when this case runs alone in a fresh process: the outcome "
+             "depends on conversions that ran earlier in the same process]")
+
+
+def mark_alone(v: Violation, ok: bool):
+    v.alone = "reproduced" if ok else "not_reproduced"
+    v.case = dict(v.case, alone=v.alone)
+    if not ok:
+        v.what += NOT_ALONE
+
+
+def sig_key(v: Violation) -> str:
+    return json.dumps(v.sig, sort_keys=True) + v.clause       # what core.finish groups the report lines by
+
+
+def confirm_in_isolation(ctx: Ctx, limit=32):
     """A replay must fail by itself.  The cases of one run share a few worker processes, so a converter that keeps
     something at module level (a remembered type, range or buffer) can spoil a case through the cases that ran before
-    it in the same process.  Each of the first `limit` violating cases is run again alone in a fresh process and
-    judged again inside Coq: those that still violate are reported first, those that do not are moved to the end and
-    say so (histories carry their own past and normally reproduce; single frames of such a converter do not)."""
-    vs = ctx.violations[:limit]
-    if not vs:
+    it in the same process.  For every kind of violation (signature) up to two violating cases are run again, each
+    alone in a fresh process, and judged again inside Coq.  Kinds with a case that still violates are reported first,
+    with that case; kinds whose cases do not reproduce alone are reported (and say so) only when nothing reproduces."""
+    if not ctx.violations:
         return
-    cases = [{k: v.case[k] for k in CASE_KEYS if k in v.case} for v in vs]
-    obs = core.run_driver(ctx, "c16", cases, workers=min(8, len(cases)), chunk=1)
-    fr = [(k, c, o) for k, (c, o) in enumerate(zip(cases, obs)) if c["kind"] != "hist" and ("codes" in o or "raise" in o)]
-    hi = [(k, c, o) for k, (c, o) in enumerate(zip(cases, obs)) if c["kind"] == "hist" and "trace" in o
-          and len(o["trace"]) == len(c["ops"])]
-    files = {}
-    if fr:
-        files["iso_f"] = emit_file([(c, o) for _, c, o in fr])
-    if hi:
-        files["iso_h"] = emit_hist_file([(c, o) for _, c, o in hi])
-    res = core.coq_eval_many(ctx, files, timeout=600)
-    still = set()
-    if fr and res["iso_f"][0] and len(res["iso_f"][1]) == 2:
-        still |= {fr[i][0] for i in core.parse_int_list(res["iso_f"][1][1])}
-    if hi and res["iso_h"][0] and len(res["iso_h"][1]) == 2:
-        still |= {hi[v // 1000][0] for v in core.parse_int_list(res["iso_h"][1][1])}
-    good = [v for k, v in enumerate(vs) if k in still]
-    bad = [v for k, v in enumerate(vs) if k not in still]
-    for v in bad:
-        v.what += (" [observed in the run, but NOT reproduced when this case runs alone in a fresh process: the outcome "
-                   "depends on conversions that ran earlier in the same process]")
-        v.sig = dict(v.sig, alone="not_reproduced")
-    ctx.cov["violations_confirmed_alone"] = len(good)
-    ctx.cov["violations_not_reproduced_alone"] = len(bad)
-    ctx.violations[:] = good + ctx.violations[limit:] + bad
+    groups: dict[str, list] = {}
+    for v in ctx.violations:
+        groups.setdefault(sig_key(v), []).append(v)
+    vs = []
+    for g in groups.values():
+        if not any(getattr(v, "alone", None) == "reproduced" for v in g):
+            vs += [v for v in g if getattr(v, "alone", None) is None][:2]
+    vs = vs[:limit]
+    if vs:
+        cases = [{k: v.case[k] for k in CASE_KEYS if k in v.case} for v in vs]
+        obs = core.run_driver(ctx, "c16", cases, workers=min(8, len(cases)), chunk=1)
+        fr = [(k, c, o) for k, (c, o) in enumerate(zip(cases, obs)) if c["kind"] != "hist" and ("codes" in o or "raise" in o)]
+        hi = [(k, c, o) for k, (c, o) in enumerate(zip(cases, obs)) if c["kind"] == "hist" and "trace" in o
+              and len(o["trace"]) == len(c["ops"])]
+        files = {}
+        if fr:
+            files["iso_f"] = emit_file([(c, o) for _, c, o in fr])
+        if hi:
+            files["iso_h"] = emit_hist_file([(c, o) for _, c, o in hi])
+        res = core.coq_eval_many(ctx, files, timeout=600)
+        still = set()
+        if fr and res["iso_f"][0] and len(res["iso_f"][1]) == 2:
+            still |= {fr[i][0] for i in core.parse_int_list(res["iso_f"][1][1])}
+        if hi and res["iso_h"][0] and len(res["iso_h"][1]) == 2:
+            still |= {hi[v // 1000][0] for v in core.parse_int_list(res["iso_h"][1][1])}
+        for k, v in enumerate(vs):
+            mark_alone(v, k in still)
+    good, unknown, bad = [], [], []
+    for g in groups.values():
+        rep = [v for v in g if getattr(v, "alone", None) == "reproduced"]
+        unk = [v for v in g if getattr(v, "alone", None) is None]
+        if rep:
+            good += rep + unk
+        elif unk and not any(getattr(v, "alone", None) == "not_reproduced" for v in g):
+            unknown += unk
+        else:
+            bad += [v for v in g if getattr(v, "alone", None) == "not_reproduced"] + unk
+    ctx.cov["violation_kinds_confirmed_alone"] = sum(1 for g in groups.values()
+                                                     if any(getattr(v, "alone", None) == "reproduced" for v in g))
+    ctx.cov["violation_kinds_not_reproduced_alone"] = len({sig_key(v) for v in bad})
+    ctx.violations[:] = good + unknown + (bad if not good else [])
 
 
 def new_violations(ctx: Ctx):
